@@ -474,10 +474,49 @@ def acquire_error_mapping(ctx, r, cons, RULE):
                 want = ['Closed'] if lab == 'Closed' else ['Timeout(TimeoutType::Wait)']
                 ctx.ob(RULE, 'try_acquire %s maps to %s' % (lab, want[0]), made == want, ctx.where(b, s.term.line), 'constructs %s' % made,
                        construct='errors:try_acquire:' + lab, sites=made)
-    # the blocking acquire maps its error to Closed
+    # the blocking acquire maps its error to Closed: what consumes a `Result<SemaphorePermit, AcquireError>` - a `match` whose Err
+    # arm builds the error, or `map_err(closure)` - builds exactly Closed for the failure.  (Where no such consumer is found
+    # the whole body that calls acquire() is looked at, as before.)
     for p in r.GETTER:
         b = prog.bodies[p]
-        if calls_named(b, ['tokio::sync::Semaphore::acquire']):
+        if not calls_named(b, ['tokio::sync::Semaphore::acquire']):
+            continue
+        ban = prog.an(b)
+        def is_acq_result(ty):
+            return ty.startswith('std::result::Result<tokio::sync::SemaphorePermit<') and ty.rstrip('>').endswith('tokio::sync::AcquireError')
+        verdicts = []
+        for blk in b.blocks:
+            t = blk.term
+            if blk.cleanup:
+                continue
+            if t.kind == 'switch' and t.j.get('adt') == 'std::result::Result' and 'on' in t.j and is_acq_result(b.locals[t.j['on']['l']]['ty'] if not t.j['on']['pr'] else t.j['on'].get('ty', '')):
+                arms = dict(t.switch_arms())
+                if 'Err' in arms and 'Ok' in arms:
+                    reach = ban.reach([arms['Err']], ('normal',), avoid=[arms['Ok']]) - ban.reach([arms['Ok']], ('normal',), avoid=[arms['Err']])
+                    made = sorted({v + ('(' + a.split('{')[0] + ')' if v == 'Timeout' else '') for v, a, line in cons.get(p, []) if any(line == st.line for x in reach for st in b.blocks[x].stmts)})
+                    verdicts.append((t.line, made))
+            if t.kind == 'call' and any(n.endswith('Result::map_err') or n.endswith('Result::<T, E>::map_err') for n in t.callee_names()) and t.args and t.args[0].kind != 'const' and \
+                    is_acq_result(b.locals[t.args[0].place.local]['ty']):
+                cls_ = [s_[1] for s_ in sources(ban, t.args[1]) if s_[0] == 'closure'] if len(t.args) > 1 else []
+                made = sorted({v for c_ in cls_ for v, a, l in cons.get(c_, [])} | {s_[1].split('::')[-1] for s_ in (sources(ban, t.args[1]) if len(t.args) > 1 else []) if s_[0] == 'const' and POOLERR in str(s_[1])})
+                verdicts.append((t.line, made))
+        # .. and is never discarded: `.ok()`, `and_then(Result::ok)`, `unwrap_or..`, `is_ok()` on the result of a waiting acquire
+        # turn "the pool was closed" into whatever comes next - usually Timeout
+        DISCARD = {'std::result::Result::ok', 'std::result::Result::unwrap_or', 'std::result::Result::unwrap_or_default', 'std::result::Result::unwrap_or_else', 'std::result::Result::is_ok', 'std::result::Result::is_err'}
+        for blk in b.blocks:
+            t = blk.term
+            if t.kind != 'call' or blk.cleanup or not t.args:
+                continue
+            direct = bool(t.callee_names() & DISCARD)
+            by_name = any(a.kind == 'const' and a.const.get('fn') and strip_generics(a.const.get('rfn') or a.const['fn']) in DISCARD for a in t.args)
+            if (direct or by_name) and any(q[0] == 'call' and q[1] in ('tokio::sync::Semaphore::acquire', 'tokio::sync::Semaphore::acquire_many', 'tokio::sync::Semaphore::acquire_owned')
+                                           for q in sources(ban, t.args[0], deep=True)):
+                ctx.ob(RULE, 'the error of a waiting acquire (the pool was closed) is mapped, never discarded', False, ctx.where(b, t.line),
+                       '%s drops the AcquireError: a waiter woken by close() is told something other than Closed' % sorted(t.callee_names())[0], construct='errors:acquire-discarded')
+        if verdicts:
+            for line, made in verdicts:
+                ctx.ob(RULE, 'acquire error maps to Closed', made == ['Closed'], ctx.where(b, line), 'the failure of the waiting acquire builds %s' % made, construct='errors:acquire')
+        else:
             cl = [c for bb, c, k in prog.callgraph().get(p, []) if k == 'closure']
             made = sorted({v for c in cl for v, a, l in cons.get(c, [])} | {v for v, a, l in cons.get(p, [])})
             ctx.ob(RULE, 'acquire error maps to Closed', made == ['Closed'], ctx.where(b), 'constructs %s' % made, construct='errors:acquire')
